@@ -268,7 +268,14 @@ def snap(C, o):
     d["gen_is_grouped"] = g
     if C.get("ploidy") or C.get("phased"):
         d["ploidy"] = int(o.ploidy)
+    # derived counters / shape attributes (a cached value would go stale under in-place operations)
+    cnt = {"mat_shape": [int(x) for x in o.mat_shape], "mat_ndim": int(o.mat_ndim)}
+    for k in C["kinds"]:
+        a = COUNTER.get(k)
+        if a and hasattr(o, a): cnt[a] = int(getattr(o, a))
+    d["counts"] = cnt
     return d
+COUNTER = {"taxa": "ntaxa", "vrnt": "nvrnt", "trait": "ntrait", "phase": "nphase"}
 def _ints(x):
     if isinstance(x, list):
         return [_ints(y) for y in x]
@@ -412,11 +419,40 @@ def apply_genotype(o, op):
 def _exc(e):
     return {"exc": type(e).__name__, "msg": str(e)[:160]}
 
+COPY_MODES = ["copy", "deepcopy", "m_copy", "m_deepcopy", "setters"]
+def apply_copy(C, o, mode):
+    """obtain the object through the library's own copying routes, or re-assign every public array through its setter"""
+    if mode == "copy": return copy.copy(o)
+    if mode == "deepcopy": return copy.deepcopy(o)
+    if mode == "m_copy": return o.copy()
+    if mode == "m_deepcopy": return o.deepcopy()
+    if mode == "setters":
+        for f in fields_of(C):
+            a = getattr(o, f)
+            setattr(o, f, None if a is None else numpy.array(a, copy=True))
+        for k in C["kinds"]:
+            m = KINDS[k]["meta"]
+            if m:
+                for s_ in MSUF:
+                    a = getattr(o, m + "_" + s_)
+                    setattr(o, m + "_" + s_, None if a is None else numpy.array(a, copy=True))
+        if not C.get("bv"):
+            o.mat = numpy.array(o.mat, copy=True)
+        return o
+    raise ValueError(mode)
+
+HOLD = 4
+def _held_ok(held):
+    """every matrix set aside earlier (operand of a non-mutating operation, matrix passed as values, original of a copy)
+    still has the state it had when it was set aside: later operations on derived objects must not reach it (aliasing)"""
+    return all(raw_equal(b, raw_state(Cx, m)) for Cx, m, b in held)
+
 def run_impl(case):
     C = CLASSES[case["cls"]]
     tab = case["tab"]
     cur = make_obj(C, spec_to_state(C, tab, case["init"]), case.get("ploidy"))
     out = {"init": snap(C, cur), "steps": []}
+    held = []
     for op in case["ops"]:
         rec = {}
         k = op["k"]
@@ -429,7 +465,25 @@ def run_impl(case):
             C2 = CLASSES["DensePhasedGenotypeMatrix" if op["prot"] == "masked_phased" else "DenseGenotypeMatrix"]
             rec["self_unchanged"] = raw_equal(before, raw_state(C, cur))
             rec["main"] = snap(C2, new)
+            held = (held + [(C, cur, before)])[-HOLD:]
             C, cur = C2, new
+            rec["held_unchanged"] = _held_ok(held)
+            out["steps"].append(rec)
+            continue
+        if k == "copy":
+            before = raw_state(C, cur)
+            try:
+                new = apply_copy(C, cur, op["mode"])
+            except Exception as e:
+                rec["main"] = _exc(e); out["steps"].append(rec); break
+            rec["main"] = snap(C, new)
+            if new is not cur:
+                rec["self_unchanged"] = raw_equal(before, raw_state(C, cur))
+                rec["fresh"] = not any(x is not None and y is not None and numpy.shares_memory(x, y)
+                                       for x, y in ((getattr(cur, f), getattr(new, f)) for f in fields_of(C)))
+                held = (held + [(C, cur, before)])[-HOLD:]
+            cur = new
+            rec["held_unchanged"] = _held_ok(held)
             out["steps"].append(rec)
             continue
         before = raw_state(C, cur)
@@ -465,9 +519,12 @@ def run_impl(case):
         else:
             if k not in INPLACE:
                 rec["self_unchanged"] = raw_equal(before, raw_state(C, cur))
+                if new is not cur: held.append((C, cur, before))
             rec["main"] = snap(C, new)
             cur = new
         rec["operands_unchanged"] = all(raw_equal(b, raw_state(C, m)) for m, b in track)
+        held = (held + [(C, m, b) for m, b in track])[-HOLD:]
+        rec["held_unchanged"] = _held_ok(held)
         out["steps"].append(rec)
     return out
 
@@ -579,6 +636,9 @@ def spec_step(C, tab, S, op):
     k = op["k"]; kind = op.get("ax")
     if k == "genotype":
         return spec_genotype(C, tab, S, op)
+    if k == "copy":
+        if op.get("mode") not in COPY_MODES: raise Invalid("copy mode")
+        return _clone(S), None
     axes = kind_axes(C, kind)
     if not axes or kind == "free": raise Invalid("no such axis")
     if op["form"] == "g" or op.get("badaxis"):
@@ -706,6 +766,10 @@ def spec_snapshot(C, S):
     d["gen_is_grouped"] = gi
     if C.get("ploidy"): d["ploidy"] = S.get("ploidy", 2)
     if C.get("phased"): d["ploidy"] = len(ents["phase"])
+    cnt = {"mat_shape": list(shape), "mat_ndim": len(shape)}
+    for k in C["kinds"]:
+        if COUNTER.get(k): cnt[COUNTER[k]] = shape[min(kind_axes(C, k))]
+    d["counts"] = cnt
     return d
 
 def partition_ok(labels, name, stix, spix, ln):
@@ -813,6 +877,10 @@ def pred(case, out):
             bad.append("%s: non-mutating operation changed its operand" % name)
         if rec.get("operands_unchanged") is False:
             bad.append("%s: operation changed the matrix passed as values" % name)
+        if rec.get("held_unchanged") is False:
+            bad.append("%s: the operation changed a matrix set aside earlier (an operand / the original of a derived matrix): shared mutable arrays" % name)
+        if rec.get("fresh") is False:
+            bad.append("%s: the copy shares label arrays with its original" % name)
         C2 = CLASSES[T["cls"]]
         exp = spec_snapshot(C2, T)
         if "exc" in main:
@@ -999,6 +1067,8 @@ class _Gen:
         C = CLASSES[S["cls"]]; self.C = C
         if C.get("phased") and r.random() < (0.25 if last else 0.06):
             return {"k": "genotype", "prot": r.choice(["unphased", "masked_phased", "masked_unphased"]), "invert": r.random() < 0.3}
+        if not last and r.random() < 0.07:
+            return {"k": "copy", "mode": r.choice(COPY_MODES)}
         if any(len(S["ents"][n_]) == 0 for n_ in free_names(C)): return None
         kinds = [k for k in C["lkinds"] if self.allowed(S, k)]
         if not kinds: return None
@@ -1063,7 +1133,7 @@ def rebase_like_impl(C, T, op):
     return T
 
 def is_terminal(C, op):
-    if op["k"] == "genotype": return False
+    if op["k"] in ("genotype", "copy"): return False
     kind = op["ax"]
     if C["square"] and kind == "taxa" and op["k"] in ("insert", "incorp", "concat"): return True
     return False
@@ -1178,6 +1248,8 @@ def gen_cross_case(rng, clsname):
         cand = G.one_op(S, last=False)
         if cand is None: break
         if cand["k"] == "genotype" or not cand.pop("_valid", True) or is_terminal(C, cand): continue
+        if cand["k"] == "copy":
+            case["ops"].append(cand); continue
         if grouped and cand["ax"] in grouped and rng.random() < 0.9: continue          # stay on the other axes
         if cand["k"] in ("group", "ungroup", "lexsort"): continue
         try:
@@ -1323,9 +1395,9 @@ def _obs(C, rec):
     return "(%s, %s, %s)" % (_st(C, m), ret, g)
 
 def translate(repo, gen_dir):
-    """regenerate the two source tables (fail closed: exceptions propagate to check.py)"""
-    from translate import c03_dispatch, c03_metareset
-    return [c03_dispatch.translate(repo, gen_dir), c03_metareset.translate(repo, gen_dir)]
+    """regenerate the two source tables and the kernel expressions (fail closed: exceptions propagate to check.py)"""
+    from translate import c03_dispatch, c03_metareset, c03_kernel
+    return [c03_dispatch.translate(repo, gen_dir), c03_metareset.translate(repo, gen_dir), c03_kernel.translate(repo, gen_dir)]
 
 def emit_case(case, out):
     if "exc" in out:
@@ -1338,6 +1410,11 @@ def emit_case(case, out):
         Cc = C
         prev = out["init"]
         for op, rec in zip(case["ops"], out["steps"]):
+            if op["k"] == "copy":
+                # the model has no copy step: a copy is the identity on the observable state, so the next model step starts
+                # from the state before the copy; a copy that raises or alters the state shows up here / in the next step
+                if "exc" in rec["main"] or diff_snap(prev, rec["main"]): return "false"
+                continue
             hops.append(_hop(Cc, tab, op, prev))
             if "exc" in rec["main"]:
                 raised = True; break
